@@ -222,6 +222,11 @@ def rule_add_files(ctx):
             return (l == r) == (e["op"] == "==")
         if k == "MethodCall":
             m = e["method"]
+            if m in ("insert", "contains") and len(e["args"]) == 1 and render(strip(e["recv"])).replace("&mut ", "").replace("&", "").startswith("self."):
+                # a set of the file stack that remembers what was seen: one more yes/no dimension of the world
+                ev(e["args"][0], w, env)
+                fresh = w.get("fresh", True)
+                return fresh if m == "insert" else (not fresh)
             recv = ev(e["recv"], w, env)
             if recv == ("path",):
                 if m in w.get("extra", {}):
@@ -334,6 +339,8 @@ def rule_add_files(ctx):
     ctx.floor(R, "add_files paths", len(paths), 4)
     # any other yes/no question the body asks about the path (`is_symlink()`, `exists()`, ..) is one more dimension
     extras = sorted({m_["method"] for m_ in walk(lp["body"]) if m_["k"] == "MethodCall" and not m_["args"] and render(strip(m_["recv"])) == pvar and (m_["method"].startswith(("is_", "has_")) or m_["method"] == "exists") and m_["method"] not in ("is_dir", "is_file")})
+    # does the body remember the directories it has listed (a set of the file stack it inserts into)?
+    remembers = any(m_["k"] == "MethodCall" and m_["method"] in ("insert", "contains") and render(strip(m_["recv"])).replace("&mut ", "").replace("&", "").startswith("self.") for m_ in walk(lp["body"]))
     worlds = []
     for d, r, x, c in itertools.product((True, False), (True, False), (None, "circom", "txt"), (True, False)):
         if d and (x is not None or not c):
@@ -342,9 +349,13 @@ def rule_add_files(ctx):
             continue
         for vals in itertools.product((False, True), repeat=len(extras)):
             worlds.append({"dir": d, "readable": r, "ext": x, "canon": c, "extra": dict(zip(extras, vals))})
+            if remembers and d:
+                worlds.append({"dir": d, "readable": r, "ext": x, "canon": True, "extra": dict(zip(extras, vals)), "fresh": False})
 
     def name(w):
         ex_ = "".join(",%s" % k_ for k_, v_ in sorted(w.get("extra", {}).items()) if v_)
+        if not w.get("fresh", True):
+            ex_ += ",listed-before"
         if w["dir"]:
             return "directory,%s%s" % ("readable" if w["readable"] else "unreadable", ex_)
         return "file,%s,%s%s" % ("no-extension" if w["ext"] is None else ("extension-circom" if w["ext"] == "circom" else "extension-other"), "canonicalisable" if w["canon"] else "not-canonicalisable", ex_)
@@ -361,6 +372,10 @@ def rule_add_files(ctx):
                 for x_ in walk(a_):
                     if x_["k"] == "MethodCall" and x_["method"] in ("push", "add_files"):
                         eff.append("%s.%s" % (render(strip(x_["recv"]))[:30], x_["method"]))
+            if not w.get("fresh", True):
+                # a directory that was listed before: everything in it has been queued already, skipping it loses nothing
+                ctx.check(R, "add_files/input[%s]" % name(w), not [x_ for x_ in eff if x_.endswith(".push")], "a directory that was listed before is skipped or listed again; effects: %s" % eff, site(INC, lp))
+                continue
             if w["ext"] != "circom" and not w["dir"] and not w["canon"]:
                 continue  # same outcome as the canonicalisable case of that kind: one representative is enough
             ctx.check(R, "add_files/input[%s]" % name(w), bool(eff), ("effects: %s" % eff) if eff else "a path of this kind named by the user is skipped without queueing, recursing or reporting", site(INC, lp))
@@ -722,4 +737,7 @@ def run(ctx):
 
     ctx.include("C02.11", "the comment stripper agrees with the reference lexer on every string - in particular it returns the `unterminated comment` error exactly when a block comment is never closed (shared with C05.1)", lambda c: c05.run(c), only=["preprocess/"])
     ctx.include("C02.12", "a file named on the command line is a user input however it was first reached: user inputs are the set of canonical paths queued from the command line (shared with C19.1/C19.4) - otherwise its findings, including its errors, are filtered out as library findings", c19.rule_canonical, c19.rule_user_inputs)
+    import c18
+
+    ctx.include("C02.16", "an error about an anonymous component call is located at the call - in the file the user handed in - and not at the template it names, which may live in an included file whose reports are filtered out (shared with C18.4)", c18.rule_binding, only=["anonymous/error-located-at-the-call", "anonymous/arity-checked"])
     ctx.include("C02.9", "prerequisite shared with C03.1: the cached reports of a definition (including the error of a failed lifting) are drained after they were produced and written unconditionally - an early return before the write drops them silently", c03.rule_drain)
